@@ -1,0 +1,107 @@
+//go:build verif
+
+package jmespath
+
+// Specification functions for the contract-based verification in /verif
+// (build tag "verif"; not compiled into the library otherwise).
+//
+// They are pure, loop-free, recursion-only Go. The verifier translates them
+// to SMT function definitions with the same SSA translator it uses for the
+// library code, and the replay harness calls them natively as the oracle.
+// They are written from the JMESPath specification and the property
+// statements, not from the implementation.
+
+// ---------------------------------------------------------------------------
+// Slices (C08): Python extended slicing, after CPython's PySlice_Unpack /
+// PySlice_AdjustIndices and range(start, stop, step).
+
+// specCapSlice clamps one explicit bound the way PySlice_AdjustIndices does.
+func specCapSlice(length int, actual int, step int) int {
+	if actual < 0 {
+		if actual+length < 0 {
+			if step < 0 {
+				return -1
+			}
+			return 0
+		}
+		return actual + length
+	}
+	if actual >= length {
+		if step < 0 {
+			return length - 1
+		}
+		return length
+	}
+	return actual
+}
+
+// specSliceStep: an absent step is 1.
+func specSliceStep(parts []sliceParam) int {
+	if parts[2].Specified {
+		return parts[2].N
+	}
+	return 1
+}
+
+// specSliceStart: absent start is 0 for a positive step, length-1 for a negative one.
+func specSliceStart(length int, parts []sliceParam) int {
+	step := specSliceStep(parts)
+	if parts[0].Specified {
+		return specCapSlice(length, parts[0].N, step)
+	}
+	if step < 0 {
+		return length - 1
+	}
+	return 0
+}
+
+// specSliceStop: absent stop is length for a positive step, -1 for a negative one.
+func specSliceStop(length int, parts []sliceParam) int {
+	step := specSliceStep(parts)
+	if parts[1].Specified {
+		return specCapSlice(length, parts[1].N, step)
+	}
+	if step < 0 {
+		return -1
+	}
+	return length
+}
+
+func specEmptyList() []interface{} {
+	return []interface{}{}
+}
+
+// specWalkUp collects a[i], a[i+step], ... while the index is below stop (step > 0).
+func specWalkUp(a []interface{}, i int, stop int, step int, acc []interface{}) []interface{} {
+	if step <= 0 || i < 0 || i >= stop || i >= len(a) {
+		return acc
+	}
+	acc2 := append(acc, a[i])
+	if step >= stop-i {
+		return acc2
+	}
+	return specWalkUp(a, i+step, stop, step, acc2)
+}
+
+// specWalkDown collects a[i], a[i+step], ... while the index is above stop (step < 0).
+func specWalkDown(a []interface{}, i int, stop int, step int, acc []interface{}) []interface{} {
+	if step >= 0 || i <= stop || i < 0 || i >= len(a) {
+		return acc
+	}
+	acc2 := append(acc, a[i])
+	if step <= stop-i {
+		return acc2
+	}
+	return specWalkDown(a, i+step, stop, step, acc2)
+}
+
+// specPySlice is a[start:stop:step] in Python, for a step different from 0.
+func specPySlice(a []interface{}, parts []sliceParam) []interface{} {
+	step := specSliceStep(parts)
+	start := specSliceStart(len(a), parts)
+	stop := specSliceStop(len(a), parts)
+	if step > 0 {
+		return specWalkUp(a, start, stop, step, specEmptyList())
+	}
+	return specWalkDown(a, start, stop, step, specEmptyList())
+}
